@@ -37,7 +37,7 @@ def strategy(tier, phase):
     from vlib import rmodel
 
     return st.fixed_dictionaries({"gen": st.sampled_from([2, 3, 4, 4]), "tape": rmodel.tape_strategy(), "outs": st.lists(st.integers(0, 60), min_size=1, max_size=2),
-                                  "ins": st.lists(st.integers(0, 60), min_size=0, max_size=3), "byname": st.integers(0, 3), "target": st.integers(0, 5), "mode": st.integers(0, 3), "gattr": st.integers(0, 3)})
+                                  "ins": st.lists(st.integers(0, 60), min_size=0, max_size=3), "byname": st.integers(0, 3), "target": st.integers(0, 6), "annot": st.one_of(st.just([]), st.lists(st.tuples(st.integers(0, 40), st.integers(0, 7)).map(list), min_size=1, max_size=3)), "mode": st.integers(0, 3), "gattr": st.integers(0, 3)})
 
 
 def nested_graphs(node):
@@ -241,9 +241,32 @@ def execute(case):
             fails.append((f"implicit-usage/shared-body/raised/{type(e).__name__}", f"analyze_implicit_usage with a shared body raised {type(e).__name__}: {str(e)[:120]}"))
     # ---- extraction ---------------------------------------------------------------------------------------
     g = model.graph
-    target = case.get("target", 0) % 6
+    target = case.get("target", 0) % 7
     graph_like = g
     main = True
+    view_nodes = None
+    if target == 6:
+        # a view that lists the nodes in ANOTHER valid order than the graph that owns them (Kahn's algorithm taking the
+        # last ready node first): "original order" is the order of the object extract() is given
+        members = list(g)
+        ids = {id(n) for n in members}
+        deps = {id(n): {id(i.producer()) for m in [n] + [x for sg in nested_graphs(n) for x in deep_nodes(sg)] for i in m.inputs
+                        if i is not None and i.producer() is not None and id(i.producer()) in ids and i.producer() is not n} for n in members}
+        done, view_nodes = set(), []
+        while len(view_nodes) < len(members):
+            ready = [n for n in members if id(n) not in done and deps[id(n)] <= done]
+            if not ready:
+                view_nodes = None
+                break
+            pick = ready[-1]
+            view_nodes.append(pick)
+            done.add(id(pick))
+        if view_nodes is not None and any(a is not b for a, b in zip(view_nodes, members)):
+            graph_like = ir.GraphView(list(g.inputs), list(g.outputs), nodes=view_nodes, initializers=list(g.initializers.values()),
+                                      opset_imports=dict(g.opset_imports), name=g.name)
+            classes.append("GraphView_in_another_order")
+        else:
+            view_nodes = None
     if target == 3:
         graph_like = ir.GraphView(list(g.inputs), list(g.outputs), nodes=list(g), initializers=list(g.initializers.values()),
                                   opset_imports=dict(g.opset_imports), name=g.name)
@@ -260,6 +283,28 @@ def execute(case):
             graph_like = g = bodies[case["outs"][0] % len(bodies)]
             main = False
             classes.append("nested_body")
+    if case.get("annot"):
+        # device annotations on nodes of the source: they bind values by identity, so the extracted copy has to be re-bound
+        try:
+            cfg_a = model.add_device_configuration("c18_tp", num_devices=2)
+            cfg_b = model.add_device_configuration("c18_pp", num_devices=2)
+            members = [n for n in g if any(v is not None for v in list(n.inputs) + list(n.outputs))]
+            for a_, b_ in case["annot"]:
+                if not members:
+                    break
+                n_ = members[a_ % len(members)]
+                ios = [v for v in list(n_.inputs) + list(n_.outputs) if v is not None and (v.shape is None or len(v.shape) >= 1)]
+                if not ios:
+                    continue
+                first, second = (cfg_a, cfg_b) if b_ % 2 == 0 else (cfg_b, cfg_a)
+                if b_ % 4 >= 2:
+                    n_.set_pipeline_stage(second, b_ % 3)
+                n_.shard(ios[b_ % len(ios)], configuration=first, axis=0, num_shards=2)
+                if b_ % 4 < 2:
+                    n_.set_pipeline_stage(second, b_ % 3)
+            classes.append("device_annotations_in_source")
+        except Exception:
+            pass
     cand = [o for n in g for o in n.outputs if o.name] + [v for v in g.inputs]
     inter = [o for n in g for o in n.outputs if o.name]
     if not inter:
@@ -275,7 +320,13 @@ def execute(case):
         v = pool_in[i % len(pool_in)]
         if not any(v is x for x in inputs):
             inputs.append(v)
-    order, need_inits, uncovered = closure(g, inputs, outputs)
+    def closure_(g_, i_, o_):
+        order_, need_, unc_ = closure(g_, i_, o_)
+        if view_nodes is not None:
+            order_ = [n for n in view_nodes if any(n is x for x in order_)]
+        return order_, need_, unc_
+
+    order, need_inits, uncovered = closure_(g, inputs, outputs)
     mode = case.get("mode", 0) % 4
     if mode in (1, 2, 3) and uncovered:
         # complete the boundary so that it is bounded (1, 3) or misses exactly one required value (2)
@@ -284,7 +335,7 @@ def execute(case):
         for v in add:
             if not any(v is x for x in inputs):
                 inputs.append(v)
-        order, need_inits, uncovered = closure(g, inputs, outputs)
+        order, need_inits, uncovered = closure_(g, inputs, outputs)
         classes.append(["", "completed", "one_missing", "completed"][mode])
     byname = case.get("byname", 0)
     names_unique = len({v.name for v in cand + list(g.initializers.values())}) == len(cand) + len(g.initializers)
@@ -399,6 +450,10 @@ def _all_objects(g):
         for v in list(n.inputs) + list(n.outputs):
             if v is not None:
                 yield v
+        for dc in n.device_configurations or ():  # annotations refer to values by identity
+            for spec in dc.sharding_specs:
+                if spec.value is not None:
+                    yield spec.value
         for sg in nested_graphs(n):
             yield from _all_objects(sg)
 
